@@ -135,6 +135,15 @@ def c04(chk, tier):
         CC.replay_emitted(chk, "MCClassify rain{0,2} inc{0,J+1}", consts(9, 4, "{0, 2}", "IncFlatFast"),
                           ["AlgorithmsEqualDefinitions", "InterstormsSound"], [], PRES[:1], CC.KEYS["C04"],
                           nontrivial=nt_inter)
+    # records of every length: the online machine against the streaming form of the definition
+    # (finite state space, unbounded behaviours: exhaustive exploration is a proof)
+    from . import tlc
+    invs = ["MachineEqualsDefinition", "NeverBothFlags", "WetIsNeverMystery"]
+    r = tlc.run("OnlineFlags", "SPECIFICATION Spec\n" + "".join("INVARIANT %s\n" % i for i in invs) + "CHECK_DEADLOCK FALSE\n",
+                workers=1, invariants=invs)
+    chk.add_tlc(r, "OnlineFlags (all lengths)")
+    if r.get("violated"):
+        chk.violation("OnlineFlags.tla: the online machine differs from the streaming definition: " + r["error"][:400], {"kind": "tlc"})
     CC.code_to_spec(chk, 300 if q else 3000, PRES, prefixes=("C04",))
     FF.field_sweep(chk, tier, prefixes=("C04",))
 
